@@ -243,7 +243,16 @@ func (nl *NodeList) RemoveNodes(ids []string) {
 		}
 	}
 
+	// a removed node can no longer be a root element
+	newRootElements := []string{}
+	for _, id := range nl.RootElements {
+		if _, ok := idDict[id]; !ok {
+			newRootElements = append(newRootElements, id)
+		}
+	}
+
 	nl.Nodes = newNodeList
+	nl.RootElements = newRootElements
 	nl.cleanEdges()
 }
 
